@@ -18,6 +18,20 @@ CLAIMED = {
     note=TB + "lxml's feed semantics (which children are in the tree / complete after a feed) is the model's assumption, validated "
          "by the correspondence only; foreign elements are compared by tag and attributes and are not in the Gallina model.",
     technique="Coq proof over all chunkings of a feed model + exhaustive 2-chunk correspondence", ref='5 C06'),
+ 'C02': dict(
+    text="Theorems on a character-level model of lxml's serialisation and of an XML reader (line end normalisation, attribute value "
+         "normalisation, predefined and numeric references, illegal code points): for EVERY string, text content and attribute values "
+         "are read back exactly as written; the written forms contain no markup start, raw carriage return, quote, raw TAB or LF; a "
+         "serialiser without these escapes is refuted. The model is validated against lxml in both directions (escaping of random "
+         "strings over every character class; reading of raw texts with references, CR/LF forms and malformed references, agreeing on "
+         "syntax errors). Oracle: histories ontology, events, [upgrade of existing definitions with or without additions, events] "
+         "through a validating EDXMLWriter (pretty printed or not; EDXMLEvent / EventElement / ParsedEvent inputs; values, attachment "
+         "ids and contents, foreign attributes over all legal XML character classes incl. only/leading/trailing whitespace, CR, CRLF, "
+         "NEL, markup, references as text; shared attachment ids; parents) parsed back by a validating parser and compared item by "
+         "item and in order; pull and push pass-through filters compared for content and byte idempotence; generated rich ontologies.",
+    note=TB + "the XML text model describes library behaviour (libxml2) and is tied by correspondence only; the element structure of events "
+         "and ontologies on the wire is covered by the oracle here and by the C07 / C08 models, not by this model.",
+    technique="Coq proof on a character-level XML escape/read model + bidirectional correspondence with lxml + history round-trip oracle", ref='5 C02'),
  'C08': dict(
     text="The per-attribute codec table of every ontology element class (how an attribute is written, when it is left out, how it is read "
          "back and stored; jointly dropped attribute groups; per-type tables for relations) is DERIVED on every run from the ast of "
